@@ -255,6 +255,8 @@ class TransformerModel:
             v = ex.value
             if isinstance(v, ast.Constant) and not v.value:
                 continue
+            if isinstance(v, (ast.List, ast.Tuple, ast.Set)) and not v.elts or isinstance(v, ast.Dict) and not v.keys:
+                continue  # an empty container is a falsy answer too (`return []` on the path that declines)
             roles = set(self.roles_from_facts(owner, pm, ex.state.must)) | self.truthy_roles(owner, pm, v)
             sets.append(roles)
         res = set.intersection(*sets) if sets else set()
